@@ -169,7 +169,9 @@ func init() {
 	})
 }
 
-var c15NearMiss = []string{"NPM", "Npm", "node", "deb", "generic", "go", "gomod", "rubygems", "python", "pip", "", "npm ", "--help", "-h", "version", "vers2", "VERS", "alpine2", "maven3"}
+// near-miss names: misspellings only (a plausible future alias or sub-command such as "version" or "deb" is not used,
+// adding one would be a legitimate change)
+var c15NearMiss = []string{"NPM", "Npm", "npmm", "np", "mavn", "pypy", "golan", "debiann", "rubygem", "", "npm ", "vers2", "VERS", "alpine2", "maven3", "xyzzy"}
 
 func c15Arg(rt *rapid.T, e eco.Eco, l string, wantRange bool) string {
 	switch rapid.IntRange(0, 11).Draw(rt, l+"k") {
